@@ -38,6 +38,7 @@ class Unit:
         self.ubsan = ubsan
         self.prescreen = prescreen      # large generated families: run every harness natively on random operands first and add the
                                         # ones with a failing assertion to the solver's work list (selection heuristic only)
+        self.cbmc_defines = list(cbmc_defines)   # -D<name> for goto-cc only (e.g. VERIF_DIVC, see include/verif_prelude.h)
         self.wrap = list(wrap)              # libc symbols routed to the harness's verif_<sym> (ld --wrap natively, call renaming in ir2c)
 
 
@@ -283,7 +284,7 @@ class Check:
         info['ir_lines'] = sum(1 for _ in open(ll)); info['c_lines'] = sum(1 for _ in open(c))
         extra = [self.src_path(e) for e in unit.extra_c]
         gb = os.path.join(wd, 'unit.gb')
-        must(['goto-cc', '-D__CPROVER__', '-I' + INC, c] + extra + ['-o', gb], 'goto-cc', timeout=1800)
+        must(['goto-cc', '-D__CPROVER__'] + ['-D' + d for d in unit.cbmc_defines] + ['-I' + INC, c] + extra + ['-o', gb], 'goto-cc', timeout=1800)
         # --- native twins
         real = self.built.get(uname, {}).get('real') or self.build_native(uname)
         xlat = os.path.join(wd, 'xlat')
